@@ -143,6 +143,14 @@ class PEngine(FullEngine):
                 ax.append(Implies(th.Len(R) > 0, And(lo <= F0, F0 < hi, substitute(cnd_k, (k, F0)), th.At(R, 0) == th.At(seq, F0),
                                                        ForAll([j], Implies(And(lo <= j, j < F0), Not(substitute(cnd_k, (k, j)))), patterns=self.trig(seq, j)))))   # -- lean: head_filter
                 ax.append(ForAll([k], Implies(And(rng, cnd_k), th.Len(R) > 0), patterns=self.trig(seq, k)))
+        # [x for x in s if x != c]  (c independent of the index) on a duplicate-free s: exactly s without c        -- lean: filter_ne_eq_erase
+        if ident and len(gen.ifs) == 1 and isinstance(gen.ifs[0], ast.Compare) and len(gen.ifs[0].ops) == 1 and isinstance(gen.ifs[0].ops[0], ast.NotEq) \
+                and isinstance(gen.ifs[0].left, ast.Name) and isinstance(gen.target, ast.Name) and gen.ifs[0].left.id == gen.target.id:
+            names_in_rhs = {n.id for n in ast.walk(gen.ifs[0].comparators[0]) if isinstance(n, ast.Name)}
+            if gen.target.id not in names_in_rhs:
+                cval = self.expr(gen.ifs[0].comparators[0], st, hint=et)
+                cterm = self.coerce(st, cval, et)
+                ax.append(Implies(th.Nodup(seq), R == If(th.Has(seq, cterm), th.Rm(seq, cterm), seq)))
         st.pc += ax
         return self.new_root(st, rt, R)
 
